@@ -53,6 +53,22 @@ def ctok(c):
     return "%d %d %d" % (c.p(), c.a(), c.b())
 
 
+def hash_colliding_curve(c, pt):
+    """a CurveFp over the same prime with DIFFERENT a and b such that (i) hash((p, a', b')) == hash((p, a, b)) - CPython hashes
+    ints modulo 2^61 - 1 keeping the sign - and (ii) the affine point `pt` (of c) satisfies the new equation as well"""
+    M = (1 << 61) - 1
+    p, a, b = c.p(), c.a(), c.b()
+    a3 = a + (M if a >= 0 else -M)
+    x, y = pt if pt else (0, 0)
+    rhs = (y * y - x * x * x - a3 * x) % p
+    sg = 1 if b >= 0 else -1
+    t = ((rhs - b) * pow(sg * M, -1, p)) % p or p
+    b3 = b + sg * M * t
+    c3 = curve_of(p, a3, b3)
+    assert hash((p, a3, b3)) == hash((p, a, b)) and (a3, b3) != (a, b) and (pt is None or c3.contains_point(x, y))
+    return c3
+
+
 TWINS = ("new", "new_h1", "new_h4", "deepcopy", "pickle")
 
 
